@@ -74,10 +74,18 @@ C13(E, S, line) ==
           InHits(E, X.rid), line, "C13", "the full title does not find its record")
   ELSE
     ChkIf(/\ HasRecS(S, X.rid) /\ SmallStore(s)
-          /\ LET n == NWords(RecOfS(S, X.rid).tok) IN
-             /\ n >= 2 /\ NWords(E.qtok) = 2
-             /\ {<<QWord(E, 1), QWord(E, 2)>>} \subseteq
-                  {<<RWord(S, X.rid, 1), RWord(S, X.rid, n)>>, <<RWord(S, X.rid, n), RWord(S, X.rid, 1)>>},
+          /\ LET tok == RecOfS(S, X.rid).tok
+                 n == NWords(tok)
+                 src(i) == StripNul(SubSeq(tok.source, tok.words[i].s + 1, tok.words[i].e))
+             IN
+             /\ n >= 2
+             \* two complete words of the title: as the query tokeniser reads the input, or literally - the two words as the
+             \* record tokeniser reports them, or as they are written in the title, one blank between them
+             /\ \/ /\ NWords(E.qtok) = 2
+                   /\ {<<QWord(E, 1), QWord(E, 2)>>} \subseteq
+                        {<<RWord(S, X.rid, 1), RWord(S, X.rid, n)>>, <<RWord(S, X.rid, n), RWord(S, X.rid, 1)>>}
+                \/ E.q \in { RWord(S, X.rid, 1) \o <<32>> \o RWord(S, X.rid, n), RWord(S, X.rid, n) \o <<32>> \o RWord(S, X.rid, 1),
+                             src(1) \o <<32>> \o src(n), src(n) \o <<32>> \o src(1) },
           InHits(E, X.rid), line, "C13", "two complete title words do not find the record")
 
 \* C14: split and joined spellings
